@@ -35,6 +35,23 @@ var StrProfileNames = []string{"ascii", "esc", "bmp", "astral", "empty", "mixed"
 var IntProfiles = map[string]map[int]int64{
 	"id":   {},
 	"edge": {7: math.MaxInt64, -7: math.MinInt64, 1: 1 << 32, -1: -(1 << 31) - 1, 0: 0},
+	// values whose digits read differently in another base (written with leading zeros)
+	"ten": {7: 10, -7: -10, 1: 644, -1: -11, 0: 0},
+}
+
+// zeroPad writes a number literal with leading zeros where the grammar's value rule
+// (`'-'? [0-9]+ ('.' [0-9]*)?`) admits them; the written value stays decimal.
+func zeroPad(lit string, n int) string {
+	neg := strings.HasPrefix(lit, "-")
+	body := strings.TrimPrefix(lit, "-")
+	if body == "" || body[0] == '.' {
+		return lit // "-.5": the second number rule has no integer part
+	}
+	body = strings.Repeat("0", n) + body
+	if neg {
+		return "-" + body
+	}
+	return body
 }
 
 // floatTable gives the literal text and the value of the spec's float tokens.
@@ -57,6 +74,10 @@ type Profile struct {
 	Int   string `json:"int"`
 	Style int    `json:"style"`
 	Seed  int64  `json:"seed"`
+	// Zeros: number literals of keyword arguments, list elements and condition values are
+	// written with leading zeros ("010", "-007", "00", "01.5"). Positional column/row
+	// ids and the bounds of `lo < f < hi` are not (the grammar does not admit it there).
+	Zeros bool `json:"zeros,omitempty"`
 }
 
 func (p Profile) str(tok string) string {
@@ -160,7 +181,16 @@ func assemble(b behav.Behaviour) ([]*node, error) {
 // 4 like 1 with control characters written raw inside double-quoted strings.
 const NStyles = 5
 
+// posValue prints a positional column / row id (`uint`: no leading zeros).
+func (pr *printer) posValue(w val) string {
+	pr.positional = true
+	defer func() { pr.positional = false }()
+	return pr.value(w)
+}
+
 type printer struct {
+	positional bool
+
 	p   Profile
 	rng *rand.Rand
 	sb  strings.Builder
@@ -225,8 +255,15 @@ func escSQ(s string) string {
 func (pr *printer) value(w val) string {
 	switch w["k"] {
 	case "int":
-		return strconv.FormatInt(pr.p.int(behav.ToInt(w["n"]), behav.ToInt(w["adj"])), 10)
+		lit := strconv.FormatInt(pr.p.int(behav.ToInt(w["n"]), behav.ToInt(w["adj"])), 10)
+		if pr.p.Zeros && !pr.positional {
+			return zeroPad(lit, 1+pr.rng.Intn(2))
+		}
+		return lit
 	case "float":
+		if pr.p.Zeros && !pr.positional {
+			return zeroPad(floatTable[w["t"].(string)].text, 1+pr.rng.Intn(2))
+		}
 		return floatTable[w["t"].(string)].text
 	case "bool":
 		if w["b"].(bool) {
@@ -310,7 +347,7 @@ func (pr *printer) call(n *node) string {
 			}
 		}
 	case "Set", "SetColumnAttrs", "Clear":
-		sb.WriteString(pr.value(n.Pos[0].W))
+		sb.WriteString(pr.posValue(n.Pos[0].W))
 		sb.WriteString(pr.comma())
 		sb.WriteString(body)
 		if n.Ts != nil && n.Ts["k"] == "ts" {
@@ -322,7 +359,7 @@ func (pr *printer) call(n *node) string {
 	case "SetRowAttrs":
 		sb.WriteString(pr.value(n.Pos[0].W))
 		sb.WriteString(pr.comma())
-		sb.WriteString(pr.value(n.Pos[1].W))
+		sb.WriteString(pr.posValue(n.Pos[1].W))
 		sb.WriteString(pr.comma())
 		sb.WriteString(body)
 		sb.WriteString(pr.ws())
